@@ -225,3 +225,46 @@ Definition dur_parse_is (s : list N) (d : Z) : bool :=
 Definition dur_parse_rejects (s : list N) : bool := is_err (dur_parse s).
 Definition dur_format_is (d : Z) (s : list N) : bool :=
   match dur_format d with Ok s' => beq_bytes s' s | _ => false end.
+
+(* --- receivers ------------------------------------------------------------------
+   (t *Time) From and (p *Duration) From run on a receiver that already holds a
+   value.  [reset] = the first statement of the method (t.Time = time.Time{} /
+   p.Duration = 0) is present; the shipped code is [reset = true].  Result: the
+   receiver afterwards and the error class of the call. *)
+Definition time_from_gen (reset : bool) (v0 : Z * Z) (s : list N) : (Z * Z) * outcome unit :=
+  let v1 := if reset then (zero_instant, 0) else v0 in
+  match s with
+  | [] => (v1, Ok tt)
+  | _ =>
+    match from_time_string s with
+    | Ok (p, sym) => if ((sym =? ch_plus) || (sym =? ch_minus))%N then (instant_of_parts p, Ok tt) else (v1, Err EDecode)
+    | Err e => (v1, Err e)
+    | Panic => (v1, Panic)
+    end
+  end.
+Definition time_from := time_from_gen true.
+
+(* for i, part := range parts { p.Duration += bases[i] * part }: the loop ADDS to the receiver *)
+Definition dur_from_gen (reset : bool) (d0 : Z) (s : list N) : Z * outcome unit :=
+  let d1 := if reset then 0 else d0 in
+  match s with
+  | [] => (d1, Ok tt)
+  | _ =>
+    match from_time_string s with
+    | Ok (p, sym) =>
+      if (sym =? ch_R)%N then
+        (fold_left Z.add [p_yy p * t_year; p_mo p * t_month; p_dd p * t_day; p_hh p * t_hour;
+                          p_mi p * t_min; p_ss p * t_sec; p_t p; 0 * p_q p] d1, Ok tt)
+      else (d1, Err EDecode)
+    | Err e => (d1, Err e)
+    | Panic => (d1, Panic)
+    end
+  end.
+Definition dur_from := dur_from_gen true.
+
+(* cases: the implementation called From(s) on a receiver holding the given value and then held (t, q) / d;
+   [ok] = the call returned nil *)
+Definition time_from_is (t0 q0 : Z) (s : list N) (ok : bool) (t q : Z) : bool :=
+  let '(v, r) := time_from (t0, q0) s in beq_inst v (t, q) && Bool.eqb (is_ok r) ok && negb (is_panic r).
+Definition dur_from_is (d0 : Z) (s : list N) (ok : bool) (d : Z) : bool :=
+  let '(v, r) := dur_from d0 s in (v =? d) && Bool.eqb (is_ok r) ok && negb (is_panic r).
